@@ -288,10 +288,10 @@ def _run(env, sc, sq, r, ops, crash_at):
                     cls = ":no-complete-chain-in-db"
                 elif c["complete"]:
                     # A complete chain by its slot headers whose first slot carries another response than the rest: the
-                    # entry's slots were freed and taken again, in the same order, by a newer version stored within the same
-                    # second (DbCellHeader::version is the entry timestamp in seconds), and only the first slot(s) of the newer
-                    # version reached the disk.  Told apart by the stored reply head: its Content-Length does not fit the
-                    # entry size recorded at the end of the chain.
+                    # entry's slots were freed and taken again, in the same order, by a newer version of the URL, and only the
+                    # first slot(s) of the newer version reached the disk (Rock::Rebuild::sameEntry() compares keys only, so
+                    # DbCellHeader::version does not separate the two).  Told apart by the stored reply head: its Content-Length
+                    # does not fit the entry size recorded at the end of the chain.
                     db = rockdb.RockDb(os.path.join(sq.cache_sub, "rock"))
                     chain = c["complete"][0]
                     slots = dict(db.by_key().get(rockdb.store_key(env.url(path)), []))
@@ -299,10 +299,14 @@ def _run(env, sc, sq, r, ops, crash_at):
                     total = [slots[k].entry_size for k in chain if slots[k].entry_size][0]
                     eoh = data.find(b"\r\n\r\n")
                     mm = re.search(rb"\r\nContent-Length: (\d+)\r\n", data[:eoh + 2]) if eoh > 0 else None
-                    if mm and len(set(slots[k].version for k in chain)) == 1 and total - (eoh + 4) != int(mm.group(1)):
-                        cls = ":newer-same-second-version-over-older-chain"
-            except Exception:
-                pass
+                    if mm and total - (eoh + 4) != int(mm.group(1)):
+                        cls = ":first-slots-of-newer-version-over-older-chain"
+                    if not cls and os.environ.get("VERIF_C16_DEBUG"):
+                        open(os.environ["VERIF_C16_DEBUG"], "a").write("chains %r total %r eoh %r mm %r versions %r head %r\n" % (
+                            c, total, eoh, mm and mm.group(1), [slots[k].version for k in chain], data[:400]))
+            except Exception as e:
+                if os.environ.get("VERIF_C16_DEBUG"):
+                    open(os.environ["VERIF_C16_DEBUG"], "a").write("exc %r\n" % e)
         r.fail("hit-is-not-a-complete-origin-version:" + store.split("-")[0] + cls,
                "u%d: only-if-cached 200 after the crash with %d body bytes (complete=%s) matching none of the %d completely served versions (sizes %s); crash_at=%d partial=%d" % (
                    u, len(m.body), m.complete, len(served), [content.served[path][v] for v in served], crash_at, partial))
